@@ -332,6 +332,14 @@ func (s *Store) Update(ctx context.Context, obj client.Object, opts ...client.Up
 
 // Patch supports merge patches (client.MergeFrom), which is all the code under test uses.
 func (s *Store) Patch(ctx context.Context, obj client.Object, patch client.Patch, opts ...client.PatchOption) error {
+	return s.patch(obj, patch, false)
+}
+
+// patch applies a merge patch to the stored object. status=false: everything but the status of a kind with a status
+// subresource is taken from the merged object; status=true (the status subresource): only the status is. A patch that
+// carries metadata.resourceVersion (MergeFromWithOptimisticLock) is refused with a conflict when it is stale; a plain
+// merge patch has no precondition.
+func (s *Store) patch(obj client.Object, patch client.Patch, status bool) error {
 	kind := kindOf(obj)
 	k := objKey(kind, obj.GetNamespace(), obj.GetName())
 	data, err := patch.Data(obj)
@@ -343,6 +351,14 @@ func (s *Store) Patch(ctx context.Context, obj client.Object, patch client.Patch
 	o, ok := s.objs[k]
 	if !ok {
 		return apierrors.NewNotFound(gr(kind), obj.GetName())
+	}
+	var pm struct {
+		Metadata struct {
+			ResourceVersion *string `json:"resourceVersion"`
+		} `json:"metadata"`
+	}
+	if json.Unmarshal(data, &pm) == nil && pm.Metadata.ResourceVersion != nil && *pm.Metadata.ResourceVersion != o.O.GetResourceVersion() {
+		return apierrors.NewConflict(gr(kind), obj.GetName(), errors.New("the object has been modified; please apply your changes to the latest version and try again"))
 	}
 	cur, err := json.Marshal(o.O)
 	if err != nil {
@@ -356,7 +372,14 @@ func (s *Store) Patch(ctx context.Context, obj client.Object, patch client.Patch
 	if err := json.Unmarshal(merged, c); err != nil {
 		return err
 	}
-	if hasStatusSubresource(kind) {
+	if status {
+		if !hasStatusSubresource(kind) {
+			return apierrors.NewNotFound(gr(kind), obj.GetName())
+		}
+		keep := o.O.DeepCopyObject().(client.Object)
+		statusField(keep).Set(statusField(c))
+		c = keep
+	} else if hasStatusSubresource(kind) {
 		keep := o.O.DeepCopyObject().(client.Object)
 		statusField(c).Set(statusField(keep))
 	}
@@ -391,7 +414,7 @@ func (w storeStatus) Update(ctx context.Context, obj client.Object, opts ...clie
 	return w.s.write(obj, true)
 }
 func (w storeStatus) Patch(ctx context.Context, obj client.Object, patch client.Patch, opts ...client.SubResourcePatchOption) error {
-	return errors.New("memstore: status patch unsupported")
+	return w.s.patch(obj, patch, true)
 }
 
 func (s *Store) Scheme() *runtime.Scheme     { return Scheme }
